@@ -10,6 +10,7 @@ package main
 
 import (
 	"context"
+	"errors"
 	"fmt"
 	"math"
 	"os"
@@ -232,7 +233,7 @@ func main() {
 	}
 	env := FromFlags("c18")
 	env.Import = "Otto.C18.Corr"
-	env.Rule = "MiniJS programs (70% without try), global and function mode; for each program the interrupt is injected at EVERY polling point k = 1..N (N <= 40 quick / 250 thorough; a seeded sample of 12 points beyond that), plus host-function panics at the j-th call, stack limits L in 1..8 x depths 0..L+2 and around 2^7, 2^8, 2^15, 2^16 and 70000 (the deep ones in child processes), and host panics below 19 kinds of Go host functions that call script callbacks x 6 faults x no try / try-catch / try-finally around the call (BCase); non-trivial = distinct (program, k) with 1 < k < N"
+	env.Rule = "MiniJS programs (70% without try), global and function mode; for each program the interrupt is injected at EVERY polling point k = 1..N (N <= 40 quick / 250 thorough; a seeded sample of 12 points beyond that), plus host-function panics at the j-th call, stack limits L in 1..8 x depths 0..L+2 and around 2^7, 2^8, 2^15, 2^16 and 70000 (the deep ones in child processes), and host panics below 19 kinds of Go host functions that call script callbacks x 6 faults x no try / try-catch / try-finally / both around the call x 6 kinds of panic value (BCase); stack limits also in copies, changed and lifted; non-trivial = distinct (program, k) with 1 < k < N"
 	maxAll := 40
 	if env.Tier == "thorough" {
 		maxAll = 250
@@ -243,6 +244,23 @@ func main() {
 	for L := 1; L <= 8; L++ {
 		for d := 0; d <= L+2; d++ {
 			addStack(env, runStack(0, L, d), d >= L-1 && d <= L+1)
+		}
+	}
+	// the limit is a setting of the runtime: a Copy() has it too, a copy can be given its own, it can be changed and lifted
+	for via := 1; via <= 6; via++ {
+		for _, L := range []int{1, 2, 3, 5, 8, 50} {
+			for d := L - 2; d <= L+2; d++ {
+				if d >= 0 {
+					addStack(env, runStackVia(0, L, d, via), true)
+				}
+			}
+		}
+		for shape := 1; shape <= 4; shape++ {
+			for _, L := range []int{2, 4, 7} {
+				for d := 1; d <= 4; d++ {
+					addStack(env, runStackVia(shape, L, d, via), true)
+				}
+			}
 		}
 	}
 	// the widths a narrowed depth counter would wrap at (8 bits; 16 bits: deep, see startDeepStack) and a few more
@@ -723,10 +741,49 @@ type stackObs struct {
 	note        string
 }
 
-func runStack(shape, L, d int) stackObs {
-	ob := stackObs{shape: shape, L: L, d: d, res: "!", cls: 9}
+var stackVias = []string{
+	"",
+	"limit set, then Copy(): run in the copy",
+	"limit set, then Copy().Copy(): run in the copy of the copy",
+	"Copy() first, limit set on the copy: run in the copy",
+	"limit set, Copy(), the copy recurses up to its limit: then run in the original",
+	"a larger limit set and reached first, then this limit set on the same runtime",
+	"a limit set and reached first, then SetStackDepthLimit(0): no limit",
+}
+
+func runStack(shape, L, d int) stackObs { return runStackVia(shape, L, d, 0) }
+
+// via: how the runtime that runs the chain got its limit (stackVias)
+func runStackVia(shape, L, d, via int) stackObs {
+	ob := stackObs{shape: shape, L: L, d: d, res: "!", cls: 9, note: stackVias[via]}
 	vm := otto.New()
-	vm.SetStackDepthLimit(L)
+	warm := `function w(n) { return n > 1 ? w(n - 1) + 1 : 1; } var r; try { r = w(40); } catch (e) { r = e.name; } r`
+	switch via {
+	case 0:
+		vm.SetStackDepthLimit(L)
+	case 1:
+		vm.SetStackDepthLimit(L)
+		vm = vm.Copy()
+	case 2:
+		vm.SetStackDepthLimit(L)
+		vm = vm.Copy().Copy()
+	case 3:
+		vm = vm.Copy()
+		vm.SetStackDepthLimit(L)
+	case 4:
+		vm.SetStackDepthLimit(L)
+		_ = RunJS(vm.Copy(), warm)
+	case 5:
+		vm.SetStackDepthLimit(L + 3)
+		_ = RunJS(vm, warm)
+		vm.SetStackDepthLimit(L)
+	case 6:
+		vm.SetStackDepthLimit(L)
+		_ = RunJS(vm, warm)
+		vm.SetStackDepthLimit(0)
+		ob.L = 0
+		ob.note += fmt.Sprintf(" (the limit before was %d)", L)
+	}
 	_ = vm.Set("nest", func(c otto.FunctionCall) otto.Value {
 		v, err := vm.Run(c.Argument(0).String())
 		if err != nil {
@@ -947,7 +1004,26 @@ func bridgeScenarios(env *Env) {
 		{16, "typed function as the callback of a built-in", "[3].forEach(function (n) { cbHolder = %s; }); [3].forEach(runHolder)", 1, false},
 		{17, "typed function entered from Go through Otto.Call", "%s", 3, true},
 		{18, "typed function returning (int, error) after the callbacks", "eachErr(3, %s)", 3, false},
+		{19, "no host function: the script calls the callback itself", "(%s)(0)", 0, false},
+		{20, "no host function: callback of Array.prototype.forEach", "[7].forEach(%s)", 0, false},
 	}
+	// the value the host panics with: one that has a JavaScript form (vk 0) or one that has none (vk 1: error values
+	// as in the README's panic(halt) with halt = errors.New(...), structs)
+	hvals := []struct {
+		id   int
+		name string
+		val  interface{}
+		js   string
+		vk   int
+	}{
+		{0, "string", haltMsg, "\"" + haltMsg + "\"", 0},
+		{1, "errors.New value", errors.New(haltMsg), "", 1},
+		{2, "pointer to a struct implementing error", &bridgeErr{haltMsg}, "", 1},
+		{3, "fmt.Errorf wrapping an error", fmt.Errorf("stop: %w", errors.New(haltMsg)), "", 1},
+		{4, "int", 42, "42", 0},
+		{5, "struct value", bridgePlain{7}, "", 1},
+	}
+	subset := map[int]bool{0: true, 1: true, 6: true, 17: true, 19: true, 20: true}
 	faults := []struct {
 		id   int
 		name string
@@ -966,177 +1042,204 @@ func bridgeScenarios(env *Env) {
 		pre, post string
 	}{
 		{0, "no try block", "", ""},
-		{1, "try/catch around the call", "try { ", " } catch (e) { caught = (e === \"" + haltMsg + "\") ? 1 : 2; }"},
+		{1, "try/catch around the call", "try { ", " } catch (e) { caught = CMP; }"},
 		{2, "try/finally around the call", "try { ", " } finally { fin = 1; }"},
+		{3, "try/finally around the call, try/catch around that", "try { try { ", " } finally { fin = 1; } } catch (e) { caught = CMP; }"},
 	}
-	for _, rt := range routes {
-		for _, ft := range faults {
-			for _, cx := range ctxs {
-				if rt.goFn && cx.id != 0 {
-					continue
-				}
-				if ft.id == 2 && cx.id == 2 {
-					continue
-				}
-				after := false
-				vm := otto.New()
-				ich := make(chan func(), 1)
-				vm.Interrupt = ich
-				tail := func() {
-					if after {
-						panic(haltMsg)
+	for _, hv := range hvals {
+		for _, rt := range routes {
+			for _, ft := range faults {
+				for _, cx := range ctxs {
+					if rt.goFn && cx.id != 0 {
+						continue
 					}
-				}
-				each := func(n int, cb func(int)) {
-					for i := 0; i < n; i++ {
-						cb(i)
+					if ft.id == 2 && cx.id >= 2 {
+						continue
 					}
-					tail()
-				}
-				_ = vm.Set("each", each)
-				_ = vm.Set("eachN", func(c otto.FunctionCall) otto.Value {
-					n, _ := c.Argument(0).ToInteger()
-					for i := int64(0); i < n; i++ {
-						if _, err := c.Argument(1).Call(otto.UndefinedValue(), i); err != nil {
-							panic(err)
+					if rt.calls == 0 && ft.id == 3 {
+						continue
+					}
+					if hv.id != 0 && (!subset[rt.id] || ft.id == 2 || ft.id == 5) {
+						continue
+					}
+					cmp := "2"
+					if hv.js != "" {
+						cmp = "(e === " + hv.js + ") ? 1 : 2"
+					}
+					cx.post = strings.ReplaceAll(cx.post, "CMP", cmp)
+					after := false
+					vm := otto.New()
+					ich := make(chan func(), 1)
+					vm.Interrupt = ich
+					tail := func() {
+						if after {
+							panic(hv.val)
 						}
 					}
-					tail()
-					return otto.UndefinedValue()
-				})
-				_ = vm.Set("once", func(cb func()) { cb(); tail() })
-				_ = vm.Set("mapper", func(n int, cb func(int) int) int {
-					t := 0
-					for i := 0; i < n; i++ {
-						t += cb(i)
-					}
-					tail()
-					return t
-				})
-				_ = vm.Set("eachV", func(n int, cbs ...func(int)) {
-					for _, cb := range cbs {
+					each := func(n int, cb func(int)) {
 						for i := 0; i < n; i++ {
 							cb(i)
 						}
+						tail()
 					}
-					tail()
-				})
-				_ = vm.Set("eachErr", func(n int, cb func(int)) (int, error) {
-					for i := 0; i < n; i++ {
-						cb(i)
-					}
-					tail()
-					return n, nil
-				})
-				_ = vm.Set("obj", bridgeT{F: each, tail: tail})
-				_ = vm.Set("pobj", &bridgeT{tail: tail})
-				_ = vm.Set("m", map[string]interface{}{"each": each})
-				_ = vm.Set("viaValue", func(n int, v otto.Value) {
-					for i := 0; i < n; i++ {
-						if _, err := v.Call(otto.UndefinedValue(), i); err != nil {
+					_ = vm.Set("each", each)
+					_ = vm.Set("eachN", func(c otto.FunctionCall) otto.Value {
+						n, _ := c.Argument(0).ToInteger()
+						for i := int64(0); i < n; i++ {
+							if _, err := c.Argument(1).Call(otto.UndefinedValue(), i); err != nil {
+								panic(err)
+							}
+						}
+						tail()
+						return otto.UndefinedValue()
+					})
+					_ = vm.Set("once", func(cb func()) { cb(); tail() })
+					_ = vm.Set("mapper", func(n int, cb func(int) int) int {
+						t := 0
+						for i := 0; i < n; i++ {
+							t += cb(i)
+						}
+						tail()
+						return t
+					})
+					_ = vm.Set("eachV", func(n int, cbs ...func(int)) {
+						for _, cb := range cbs {
+							for i := 0; i < n; i++ {
+								cb(i)
+							}
+						}
+						tail()
+					})
+					_ = vm.Set("eachErr", func(n int, cb func(int)) (int, error) {
+						for i := 0; i < n; i++ {
+							cb(i)
+						}
+						tail()
+						return n, nil
+					})
+					_ = vm.Set("obj", bridgeT{F: each, tail: tail})
+					_ = vm.Set("pobj", &bridgeT{tail: tail})
+					_ = vm.Set("m", map[string]interface{}{"each": each})
+					_ = vm.Set("viaValue", func(n int, v otto.Value) {
+						for i := 0; i < n; i++ {
+							if _, err := v.Call(otto.UndefinedValue(), i); err != nil {
+								panic(err)
+							}
+						}
+						tail()
+					})
+					_ = vm.Set("runHolder", func(n int, idx int, arr otto.Value) {
+						v, _ := vm.Get("cbHolder")
+						if _, err := v.Call(otto.UndefinedValue(), n); err != nil {
 							panic(err)
 						}
+						tail()
+					})
+					_ = vm.Set("boom", func(c otto.FunctionCall) otto.Value { panic(hv.val) })
+					_ = vm.Set("tboom", func(n int) { panic(hv.val) })
+					_ = vm.Set("tboomR", func(n int) int { panic(hv.val) })
+					_ = vm.Set("arm", func(c otto.FunctionCall) otto.Value {
+						select {
+						case ich <- func() { panic(hv.val) }:
+						default:
+						}
+						return otto.UndefinedValue()
+					})
+					cb := "function (i) { seen++; " + ft.body + " seen += 100; return 0; }"
+					calls := 1
+					if ft.id == 3 {
+						cb = "function (i) { seen++; return 0; }"
+						calls = rt.calls
+						after = true
 					}
-					tail()
-				})
-				_ = vm.Set("runHolder", func(n int, idx int, arr otto.Value) {
-					v, _ := vm.Get("cbHolder")
-					if _, err := v.Call(otto.UndefinedValue(), n); err != nil {
-						panic(err)
-					}
-					tail()
-				})
-				_ = vm.Set("boom", func(c otto.FunctionCall) otto.Value { panic(haltMsg) })
-				_ = vm.Set("tboom", func(n int) { panic(haltMsg) })
-				_ = vm.Set("tboomR", func(n int) int { panic(haltMsg) })
-				_ = vm.Set("arm", func(c otto.FunctionCall) otto.Value {
-					select {
-					case ich <- func() { panic(haltMsg) }:
-					default:
-					}
-					return otto.UndefinedValue()
-				})
-				cb := "function (i) { seen++; " + ft.body + " seen += 100; return 0; }"
-				calls := 1
-				if ft.id == 3 {
-					cb = "function (i) { seen++; return 0; }"
-					calls = rt.calls
-					after = true
-				}
-				prelude := "var seen = 0, caught = 0, fin = 0, after = 0, cbHolder;\n"
-				src := prelude + cx.pre + fmt.Sprintf(rt.call, cb) + ";" + cx.post + "\nafter = 1;"
-				ch := make(chan Outcome, 1)
-				if rt.goFn {
-					src = prelude + "var cbHolder = " + cb + ";"
-					if o0 := RunJS(vm, src); o0.Err != nil || o0.Panic != nil {
-						ch <- o0
+					prelude := "var seen = 0, caught = 0, fin = 0, after = 0, cbHolder;\n"
+					src := prelude + cx.pre + fmt.Sprintf(rt.call, cb) + ";" + cx.post + "\nafter = 1;"
+					ch := make(chan Outcome, 1)
+					if rt.goFn {
+						src = prelude + "var cbHolder = " + cb + ";"
+						if o0 := RunJS(vm, src); o0.Err != nil || o0.Panic != nil {
+							ch <- o0
+						} else {
+							src += "  then, from Go: vm.Call(\"each\", nil, 3, cbHolder)"
+							go func() {
+								ch <- Guard(func() (otto.Value, error) {
+									fn, _ := vm.Get("cbHolder")
+									return vm.Call("each", nil, 3, fn)
+								})
+							}()
+						}
 					} else {
-						src += "  then, from Go: vm.Call(\"each\", nil, 3, cbHolder)"
+						go func() { ch <- RunJS(vm, src) }()
+					}
+					if ft.id == 2 {
 						go func() {
-							ch <- Guard(func() (otto.Value, error) {
-								fn, _ := vm.Get("cbHolder")
-								return vm.Call("each", nil, 3, fn)
-							})
+							time.Sleep(15 * time.Millisecond)
+							select {
+							case ich <- func() { panic(hv.val) }:
+							case <-time.After(5 * time.Second):
+							}
 						}()
 					}
-				} else {
-					go func() { ch <- RunJS(vm, src) }()
-				}
-				if ft.id == 2 {
-					go func() {
-						time.Sleep(15 * time.Millisecond)
-						select {
-						case ich <- func() { panic(haltMsg) }:
-						case <-time.After(5 * time.Second):
-						}
-					}()
-				}
-				ended := 4 // not stopped
-				how := "still running after 5s"
-				var seen, caught, fin, aft int64 = -1, -1, -1, -1
-				rest := false
-				select {
-				case o := <-ch:
-					switch {
-					case o.Panic != nil:
-						if s, ok := o.Panic.(string); ok && s == haltMsg {
-							ended, how = 0, "Run unwound with the host's panic"
-						} else {
-							ended, how = 3, fmt.Sprintf("Run unwound with another panic: %v", o.Panic)
-						}
-					case o.Err == nil:
-						ended, how = 1, "Run returned normally"
-					case o.Err.Error() == haltMsg:
-						ended, how = 2, "Run returned the host's value as an error"
-					default:
-						ended, how = 5, "Run returned the error "+o.Err.Error()
-					}
-					d, _ := vm.VerifScopeDepth()
-					labels := vm.VerifLabelCount()
+					ended := 4 // not stopped
+					how := "still running after 5s"
+					var seen, caught, fin, aft int64 = -1, -1, -1, -1
+					rest := false
 					select {
-					case <-ich:
-					default:
-					}
-					vm.Interrupt = nil
-					get := func(name string) int64 {
-						v, err := vm.Get(name)
-						if err != nil {
-							return -1
+					case o := <-ch:
+						switch {
+						case o.Panic != nil:
+							if o.Panic == hv.val {
+								ended, how = 0, "Run unwound with the host's panic"
+							} else {
+								ended, how = 3, fmt.Sprintf("Run unwound with another panic: %v", o.Panic)
+							}
+						case o.Err == nil:
+							ended, how = 1, "Run returned normally"
+						case hv.vk == 0 && o.Err.Error() == fmt.Sprint(hv.val):
+							ended, how = 2, "Run returned the host's value as an error"
+						case isTypeError(o.Err):
+							ended, how = 6, "Run returned a TypeError: "+o.Err.Error()
+						default:
+							ended, how = 5, "Run returned the error "+o.Err.Error()
 						}
-						n, _ := v.ToInteger()
-						return n
+						d, _ := vm.VerifScopeDepth()
+						labels := vm.VerifLabelCount()
+						select {
+						case <-ich:
+						default:
+						}
+						vm.Interrupt = nil
+						get := func(name string) int64 {
+							v, err := vm.Get(name)
+							if err != nil {
+								return -1
+							}
+							n, _ := v.ToInteger()
+							return n
+						}
+						seen, caught, fin, aft = get("seen"), get("caught"), get("fin"), get("after")
+						after = false
+						fo := RunJS(vm, `var t = 0; each(3, function (i) { t += i + 1; }); t * 7`)
+						n, _ := fo.Val.ToInteger()
+						rest = d == -1 && labels == 0 && fo.Err == nil && fo.Panic == nil && n == 42
+					case <-time.After(5 * time.Second):
 					}
-					seen, caught, fin, aft = get("seen"), get("caught"), get("fin"), get("after")
-					after = false
-					fo := RunJS(vm, `var t = 0; each(3, function (i) { t += i + 1; }); t * 7`)
-					n, _ := fo.Val.ToInteger()
-					rest = d == -1 && labels == 0 && fo.Err == nil && fo.Panic == nil && n == 42
-				case <-time.After(5 * time.Second):
+					env.Add(fmt.Sprintf("BCase %d %d %d %d %d %d %s %s %s %s %s", rt.id, ft.id, cx.id, hv.vk, calls, ended, Cz(seen), Cz(caught), Cz(fin), Cz(aft), Cbool(rest)),
+						fmt.Sprintf("BCase %s / %s (the host's panic value is a %s) / %s: %s => %s; seen=%d caught=%d fin=%d after=%d atRestAndFollowup=%v", rt.name, ft.name, hv.name, cx.name, strings.ReplaceAll(src, "\n", " "), how, seen, caught, fin, aft, rest),
+						"host-function-bridge", true)
 				}
-				env.Add(fmt.Sprintf("BCase %d %d %d %d %d %s %s %s %s %s", rt.id, ft.id, cx.id, calls, ended, Cz(seen), Cz(caught), Cz(fin), Cz(aft), Cbool(rest)),
-					fmt.Sprintf("BCase %s / %s / %s: %s => %s; seen=%d caught=%d fin=%d after=%d atRestAndFollowup=%v", rt.name, ft.name, cx.name, strings.ReplaceAll(src, "\n", " "), how, seen, caught, fin, aft, rest),
-					"host-function-bridge", true)
 			}
 		}
 	}
+}
+
+type bridgeErr struct{ s string }
+
+func (e *bridgeErr) Error() string { return e.s }
+
+type bridgePlain struct{ A int }
+
+func isTypeError(err error) bool {
+	oe, ok := err.(*otto.Error)
+	return ok && strings.HasPrefix(oe.Error(), "TypeError")
 }
